@@ -821,3 +821,130 @@ Proof.
   intros Hp Hd. unfold best_fit_voting. f_equal. f_equal.
   apply sort_desc_unique; [apply cands_perm, Hp | exact Hd].
 Qed.
+
+Lemma max_dist_is_largest_lemma s :
+  (forall d e, In d s -> fd d = Some e -> e <= max_dist s) /\
+  (max_dist s = (-1 # 1) \/ exists d, In d s /\ fd d = Some (max_dist s)).
+Proof. split; [exact (max_dist_ub s) | exact (max_dist_attained s)]. Qed.
+
+(* ---------------------------------------------------------------------------------------------- *)
+(* best fit, order independence under the weaker hypothesis: only COMPARABLE candidates (same query or same track)
+   need distinct weights *)
+Definition heavier_claim (C : list cand) (c : cand) : bool :=
+  existsb (fun c' => (c_t c' =? c_t c)%N && Qltb (c_w c) (c_w c')) C.
+Definition relabel (C : list cand) (c : cand) : cand :=
+  if heavier_claim C c then (c_q c, c_q c, c_w c) else c.
+
+Lemma heavier_claim_perm C C' c : Permutation C C' -> heavier_claim C c = heavier_claim C' c.
+Proof.
+  intro Hp. unfold heavier_claim. apply eq_true_iff_eq. rewrite !existsb_exists.
+  split; intros [x [Hx E]]; exists x; (split; [|exact E]); eapply Permutation_in; try eassumption. apply Permutation_sym, Hp.
+Qed.
+
+Lemma award_is_relabel l : forall pre won,
+  (forall t, In t won <-> In t (map c_t pre)) ->
+  StronglySorted (ge_w c_w) (pre ++ l) -> NoDup (pre ++ l) ->
+  (forall c1 c2, In c1 (pre ++ l) -> In c2 (pre ++ l) -> c_t c1 = c_t c2 -> c_w c1 == c_w c2 -> c1 = c2) ->
+  award won l = map (relabel (pre ++ l)) l.
+Proof.
+  induction l as [|c r IH]; intros pre won Hwon Hs Hnd Hdist; [reflexivity|].
+  cbn [award map].
+  assert (existsb (N.eqb (c_t c)) won = heavier_claim (pre ++ c :: r) c) as E.
+  { apply eq_true_iff_eq. rewrite existsb_Neqb, Hwon. unfold heavier_claim. rewrite existsb_exists, in_map_iff. split.
+    - intros [c' [Et Hc']]. exists c'. split; [apply in_or_app; left; exact Hc'|].
+      rewrite Et, N.eqb_refl. cbn [andb]. apply Qltb_true.
+      assert (c_w c <= c_w c') as Hle.
+      { clear - Hs Hc'. induction pre as [|a pre IHp]; [contradiction|]. cbn [app] in Hs.
+        apply StronglySorted_inv in Hs. destruct Hs as [Hs Ha]. destruct Hc' as [Hc'|Hc']; [|apply IHp; assumption].
+        subst a. rewrite Forall_forall in Ha. apply Ha. apply in_or_app. right. left. reflexivity. }
+      destruct (Qlt_le_dec (c_w c) (c_w c')) as [Hlt|Hge]; [exact Hlt|]. exfalso.
+      assert (c' = c) as Ec.
+      { apply Hdist; [apply in_or_app; left; exact Hc' | apply in_or_app; right; left; reflexivity | exact Et | apply Qle_antisym; assumption]. }
+      subst c'. apply NoDup_remove_2 in Hnd. apply Hnd. apply in_or_app. left. exact Hc'.
+    - intros [c' [Hc' Ec']]. apply andb_true_iff in Ec'. destruct Ec' as [Et Hlt]. apply N.eqb_eq in Et. apply Qltb_true in Hlt.
+      exists c'. split; [exact Et|]. apply in_app_or in Hc'. destruct Hc' as [Hc'|[Hc'|Hc']]; [exact Hc' | |].
+      + subst c'. exfalso. apply (Qlt_irrefl _ Hlt).
+      + exfalso. pose proof (StronglySorted_after _ _ _ _ _ Hs Hc') as Hge. unfold ge_w in Hge. apply (Qlt_not_le _ _ Hlt Hge). }
+  assert (pre ++ c :: r = (pre ++ [c]) ++ r) as Eapp by (rewrite <- app_assoc; reflexivity).
+  unfold relabel at 1. rewrite <- E. destruct (existsb (N.eqb (c_t c)) won) eqn:Ew.
+  - f_equal. rewrite Eapp. apply IH; try (rewrite <- Eapp; assumption).
+    intro t. rewrite Hwon, map_app, in_app_iff. cbn [map In]. split; [tauto|]. intros [H|[H|[]]]; [exact H|].
+    subst t. apply Hwon. apply existsb_Neqb. exact Ew.
+  - f_equal. rewrite Eapp. apply IH; try (rewrite <- Eapp; assumption).
+    intro t. cbn [In]. rewrite Hwon, map_app, in_app_iff. cbn [map In]. tauto.
+Qed.
+
+Lemma filter_sorted {A} (R : A -> A -> Prop) (p : A -> bool) l : StronglySorted R l -> StronglySorted R (filter p l).
+Proof.
+  induction l as [|x l IH]; intro Hs; cbn [filter]; [constructor|].
+  apply StronglySorted_inv in Hs. destruct Hs as [Hs Hx]. destruct (p x); [|apply IH, Hs].
+  constructor; [apply IH, Hs|]. rewrite Forall_forall in *. intros y Hy. apply filter_In in Hy. apply Hx. tauto.
+Qed.
+
+Lemma qcands_relabel q C l :
+  qcands q (map (relabel C) l) = map (fun c => (c_t (relabel C c), c_w c)) (filter (fun c => (q =? c_q c)%N) l).
+Proof.
+  unfold qcands, vals. induction l as [|c r IH]; [reflexivity|].
+  cbn [map filter]. 
+  assert (c_q (relabel C c) = c_q c /\ c_w (relabel C c) = c_w c) as [Eq Ew]
+    by (unfold relabel; destruct (heavier_claim C c); split; reflexivity).
+  unfold reshape at 1. cbn [fst]. rewrite Eq. destruct (q =? c_q c)%N; cbn [map snd]; [|exact IH].
+  rewrite IH. unfold reshape. cbn [snd]. rewrite Ew. reflexivity.
+Qed.
+
+Definition bestfit_distinct_cmp (maxd : Q) (minv : nat) (s : list dist) : Prop :=
+  forall c1 c2, In c1 (cands maxd minv s) -> In c2 (cands maxd minv s) ->
+    c_q c1 = c_q c2 \/ c_t c1 = c_t c2 -> c_w c1 == c_w c2 -> c1 = c2.
+
+Lemma bestfit_as_relabel maxd minv s :
+  bestfit_distinct_cmp maxd minv s ->
+  awarded maxd minv s = map (relabel (cands maxd minv s)) (sort_desc c_w (cands maxd minv s)).
+Proof.
+  intro Hd. unfold awarded.
+  pose proof (sort_desc_perm c_w (cands maxd minv s)) as Hp.
+  rewrite (award_is_relabel _ [] []); cbn [app].
+  - apply map_ext_in. intros c _. unfold relabel. rewrite (heavier_claim_perm _ _ c Hp). reflexivity.
+  - intro t. cbn. tauto.
+  - apply sort_desc_sorted.
+  - eapply Permutation_NoDup; [apply Permutation_sym, Hp | apply cands_NoDup].
+  - intros c1 c2 H1 H2 Et Ew. apply Hd; [eapply Permutation_in; eassumption | eapply Permutation_in; eassumption | right; exact Et | exact Ew].
+Qed.
+
+Lemma bestfit_assoc maxd minv s q :
+  assoc N.eqb q (best_fit_voting maxd minv s) =
+  if existsb (N.eqb q) (nodupf N.eqb (map c_q (awarded maxd minv s)))
+  then Some (qcands q (awarded maxd minv s)) else None.
+Proof.
+  unfold best_fit_voting, by_query, group_map. fold (awarded maxd minv s). rewrite !map_map. cbn [fst].
+  rewrite (assoc_keys N.eqb Neqb_spec (fun k => vals N.eqb k (map reshape (awarded maxd minv s)))). reflexivity.
+Qed.
+
+Lemma bestfit_perm_invariant_cmp_lemma maxd minv s s' :
+  Permutation s s' -> bestfit_distinct_cmp maxd minv s ->
+  forall q, assoc N.eqb q (best_fit_voting maxd minv s) = assoc N.eqb q (best_fit_voting maxd minv s').
+Proof.
+  intros Hp Hd q.
+  pose proof (cands_perm maxd minv _ _ Hp) as Hc.
+  assert (bestfit_distinct_cmp maxd minv s') as Hd'.
+  { intros c1 c2 H1 H2. apply Hd; eapply Permutation_in; try apply Permutation_sym; eassumption. }
+  rewrite !bestfit_assoc, (bestfit_as_relabel _ _ _ Hd), (bestfit_as_relabel _ _ _ Hd').
+  set (C := cands maxd minv s) in *. set (C' := cands maxd minv s') in *.
+  assert (forall X, map c_q (map (relabel X) (sort_desc c_w X)) = map c_q (sort_desc c_w X)) as Hq.
+  { intro X. rewrite map_map. apply map_ext. intro c. unfold relabel. destruct (heavier_claim X c); reflexivity. }
+  rewrite !Hq.
+  rewrite (existsb_perm N.eqb q _ (nodupf N.eqb (map c_q (sort_desc c_w C')))).
+  2:{ intro x. rewrite !(In_nodupf N.eqb Neqb_spec). split; apply Permutation_in; apply Permutation_map.
+      - eapply perm_trans; [apply sort_desc_perm|]. eapply perm_trans; [exact Hc | apply Permutation_sym, sort_desc_perm].
+      - eapply perm_trans; [apply sort_desc_perm|]. eapply perm_trans; [apply Permutation_sym, Hc | apply Permutation_sym, sort_desc_perm]. }
+  destruct (existsb _ _); [|reflexivity]. f_equal.
+  rewrite !qcands_relabel.
+  assert (filter (fun c => (q =? c_q c)%N) (sort_desc c_w C) = filter (fun c => (q =? c_q c)%N) (sort_desc c_w C')) as Ef.
+  { apply (sorted_unique c_w).
+    - apply Permutation_filter'. eapply perm_trans; [apply sort_desc_perm|]. eapply perm_trans; [exact Hc | apply Permutation_sym, sort_desc_perm].
+    - apply filter_sorted, sort_desc_sorted.
+    - apply filter_sorted, sort_desc_sorted.
+    - intros x y Hx Hy Hw. apply filter_In in Hx, Hy. destruct Hx as [Hx Qx], Hy as [Hy Qy].
+      apply N.eqb_eq in Qx, Qy.
+      apply Hd; [eapply Permutation_in; [apply sort_desc_perm | exact Hx] | eapply Permutation_in; [apply sort_desc_perm | exact Hy] | left; congruence | exact Hw]. }
+  rewrite Ef. apply map_ext. intro c. unfold relabel. rewrite (heavier_claim_perm C C' c Hc). reflexivity.
+Qed.
